@@ -196,6 +196,8 @@ struct Obs : Observer {
             if (want >= 0 ? r.err != want : r.err == 0)
                 c.fail("C11.errno_at_callback", "step %d: %s: errno was %d (%s) when error_fn was called with category %d (%s); vnaerr(3) maps that category to %s", x.step, k.fn, r.err, strerror(r.err), r.category, ascii(r.msg).c_str(), want >= 0 ? strerror(want) : "the system errno");
         }
+        // the same message twice in a row within one call: tracked, not asserted (no man page says "exactly once")
+        for (size_t i = 1; i < log.recs.size(); i++) if (log.recs[i].category == log.recs[i - 1].category && log.recs[i].msg == log.recs[i - 1].msg) c.label(std::string("duplicate-callback:") + k.fn);
         if (!k.has_fn && !log.recs.empty()) c.fail("C11.harness", "callback recorded for an object created without error_fn");
         if (k.expect == XP_FAIL && !k.failed) c.fail("C11.invalid_accepted", "step %d: %s with an invalid argument (%s) did not return its failure value (returned %ld)", x.step, k.fn, k.why, k.iret);
         if (k.expect == XP_OK && k.failed) c.label(std::string("valid_failed:") + k.fn);
